@@ -184,4 +184,21 @@ PROPS = {
         "trusted": ["OS file system semantics", "virtual clock + creation-time table hooks"],
         "assumptions": ["monotone clock across runs", "every process that ends has flushed (drop = shutdown)"],
     },
+    "C10": {
+        "level_text": "Kernel-checked panic-freedom of every MODELLED function that slices, unwraps or parses, for arbitrary Unicode input: FlexiLogger::log/enabled "
+                      "(route_never_panics, enabled_never_panics: the checked brace slice; the formerly panicking targets are exactly characterised and are now reported as "
+                      "an unknown writer), LogSpecification::parse (total, verdict exact); the listing/naming functions are total in the Names model (byte-offset slicing "
+                      "returns Option; see C14). Exploration part (labelled as such): a robustness stream against the real crate — nasty targets/messages/spec strings, "
+                      "file-name part combinations (empty basename, no suffix, multi-byte, dots), all namings, 3 custom formats with append on/off and restarts, "
+                      "directories pre-populated with arbitrary near-miss names — every call under catch_unwind, a later record must still be accepted; recursive logging "
+                      "from Display in a child process under a watchdog.",
+        "level_note": "PARTIAL: a theorem cannot show the absence of panics in unmodelled code (std, chrono, regex, OS); that part is exploration. Five panics found and "
+                      "repaired (fix commits 9620a31, 0f937be, 9c1a91c, 6ba14c4, index overflow); one hang is a known finding (recursion + buffered stdout). "
+                      "Out of the random domain (documented): suffix 'gz', exhausted index space (>= 2^32-1).",
+        "correspondence": "Spec.route/enabledQuery/parse vs the real logger on nasty inputs; robustness histories: only 'the call returns' is predicted",
+        "rule": "half records/spec strings (22 nasty targets incl. 5000-char and 100 KB messages, arbitrary Unicode spec strings), half file-name configurations x "
+                "directory contents (24 nasty name fragments) x histories with rotations and restarts; 6 recursion runs; non-trivial = all executed cases",
+        "trusted": ["catch_unwind observes every panic of the calling thread", "watchdog 4 s + 8 s re-run for hang detection"],
+        "shards": 8,
+    },
 }
